@@ -47,6 +47,17 @@ class Period(ModelMixin["Period"], Base):
     def get(cls, **kwargs) -> Optional["Period"]:
         return cast(Period | None, cls.get_one(**kwargs))
 
+    def presentation_duration(self) -> datetime.timedelta:
+        """
+        The duration of this Period in a presentation. Period@start and
+        Period@duration are written with a resolution of one millisecond, so
+        the duration is rounded to a whole number of milliseconds. Period
+        start times are accumulated from these values, which makes each
+        Period start exactly where the previous Period ends.
+        """
+        usecs: int = self.duration // datetime.timedelta(microseconds=1)
+        return datetime.timedelta(microseconds=((usecs + 500) // 1000) * 1000)
+
     def get_fields(self) -> list[FormInputContext]:
         ordering: FormInputContext = {
             'name': self.field_name('ordering'),
